@@ -102,7 +102,7 @@ class RefVT:
         """terminals of the family differ here: the comparison stops before such a command"""
         k = c[0]
         partial = not (s.top == 0 and s.bot == s.h - 1)
-        if k in ("lf", "ri"):
+        if k in ("lf", "ri", "ht"):
             return s.pending
         if k == "cuu":
             return partial and s.top <= s.y and s.y - s.one(c[1]) < s.top
@@ -199,9 +199,27 @@ class RefVT:
                 s.x = s.y = 0
                 s.unpend(k)
         elif k == "sgr":
+            # colours: n < 256 palette index, 256 + rgb direct colour
             fg, bg, fl = s.attr
-            for n in (c[1] or [0]):
-                if n <= 0:
+            ps = list(c[1] or [0])
+            i = 0
+            while i < len(ps):
+                n = ps[i]
+                if n in (38, 48):
+                    if i + 2 < len(ps) and ps[i + 1] == 5:
+                        col = ps[i + 2]
+                        i += 2
+                    elif i + 4 < len(ps) and ps[i + 1] == 2:
+                        col = 256 + ps[i + 2] * 65536 + ps[i + 3] * 256 + ps[i + 4]
+                        i += 4
+                    else:
+                        i += 1
+                        continue
+                    if n == 38:
+                        fg = col
+                    else:
+                        bg = col
+                elif n <= 0:
                     fg, bg, fl = None, None, 0
                 elif n == 1:
                     fl |= 1
@@ -225,7 +243,11 @@ class RefVT:
                     bg = n - 40
                 elif n == 49:
                     bg = None
+                i += 1
             s.attr = (fg, bg, fl)
+        elif k == "ht":
+            s.x = min(s.w - 1, (s.x // 8 + 1) * 8)
+            s.unpend(k)
         elif k == "dsr":
             if c[1] == 5:
                 s.replies.append("\x1b[0n")
@@ -236,7 +258,7 @@ class RefVT:
 
 
 CMD_CODE = {"ch": 1, "cr": 2, "lf": 3, "bs": 4, "ri": 5, "cup": 6, "cuu": 7, "cud": 8, "cuf": 9, "cub": 10, "el": 11,
-            "ed": 12, "ich": 13, "dch": 14, "il": 15, "dl": 16, "stbm": 17, "sgr": 18, "dsr": 19}
+            "ed": 12, "ich": 13, "dch": 14, "il": 15, "dl": 16, "stbm": 17, "sgr": 18, "dsr": 19, "ht": 20}
 CSI_FINAL = {"cup": b"H", "cuu": b"A", "cud": b"B", "cuf": b"C", "cub": b"D", "el": b"K", "ed": b"J", "ich": b"@",
              "dch": b"P", "il": b"L", "dl": b"M", "stbm": b"r", "sgr": b"m", "dsr": b"n"}
 
@@ -246,8 +268,8 @@ def enc_cmd(c):
     k = c[0]
     if k == "ch":
         return bytes([c[1]])
-    if k in ("cr", "lf", "bs", "ri"):
-        return {"cr": b"\r", "lf": b"\n", "bs": b"\b", "ri": b"\x1bM"}[k]
+    if k in ("cr", "lf", "bs", "ri", "ht"):
+        return {"cr": b"\r", "lf": b"\n", "bs": b"\b", "ri": b"\x1bM", "ht": b"\t"}[k]
     ps = c[1] if k == "sgr" else c[1:]
     out = b"\x1b[" + b";".join(b"" if n < 0 else str(n).encode() for n in ps) + CSI_FINAL[k]
     if k in ("il", "dl"):
@@ -264,14 +286,35 @@ def attr_obs(a):
     return [fg, bg, a.colors, int(a.bold), int(a.underline), int(a.blink), int(a.standout)]
 
 
-def attr_as_ref(a):
-    """the emulator's rendition read as a VT100 rendition (16-colour bold is shown as the bright colour)"""
+def palette_rgb(n):
+    """the rgb value urwid itself shows for palette index n (AttrSpec('h<n>').get_rgb_values())"""
+    from urwid.display.common import AttrSpec
+    r, g, b = AttrSpec("h%d" % n, "default", 256).get_rgb_values()[:3]
+    return (r << 16) + (g << 8) + b
+
+
+def colour_matches(num, colors, bold, ref, is_fg):
+    """does the emulator's colour number (at its colour depth) show the reference colour?"""
+    if ref is None or num is None:
+        return ref is None and num is None
+    if colors == 2 ** 24:
+        return num == (ref - 256 if ref >= 256 else palette_rgb(ref))
+    if ref >= 256:
+        return False
+    if colors == 16 and is_fg and bold and num >= 8:      # 16-colour bold is shown as the bright colour
+        num -= 8
+    return num == ref
+
+
+def attr_matches(a, ra):
+    """the emulator's rendition (observed AttrSpec numbers or None) against a reference rendition (fg, bg, flags)"""
+    rfg, rbg, rfl = ra
     if a is None:
-        return (None, None, 0)
+        return (rfg, rbg, rfl) == (None, None, 0)
     fg, bg, colors, bold, ul, blink, so = a
-    if fg is not None and colors == 16 and bold and fg >= 8:
-        fg -= 8
-    return (fg, bg, bold | (ul << 1) | (blink << 2) | (so << 3))
+    if (bold | (ul << 1) | (blink << 2) | (so << 3)) != rfl:
+        return False
+    return colour_matches(fg, colors, bold, rfg, True) and colour_matches(bg, colors, bold, rbg, False)
 
 
 CS = {None: 0, "0": 1, "U": 2}
@@ -700,8 +743,8 @@ class C15(core.Check):
                 rc, ra = r.g[y][x]
                 if ch != [rc]:
                     return f"cell ({x},{y}) holds {bytes(ch)!r}, the reference has {chr(rc)!r}"
-                if ra != ANY and attr_as_ref(a) != ra:
-                    return f"cell ({x},{y}) rendition {attr_as_ref(a)}, the reference has {ra}"
+                if ra != ANY and not attr_matches(a, ra):
+                    return f"cell ({x},{y}) rendition {a}, the reference has {ra}"
         if final["cur"] != [r.x, r.y]:
             return f"cursor at {final['cur']}, the reference has {[r.x, r.y]}"
         if final["region"] != [r.top, r.bot]:
@@ -765,7 +808,10 @@ class C15(core.Check):
         urwid.set_encoding(ENCODINGS[case.get("enc", 1)])
         try:
             t, wd = self._new(case)
+            sgr_zero = False
             for i, c in enumerate(cmds):
+                if c[0] == "sgr" and len(c[1]) >= 3 and c[1][-1] == 0 and (38 in c[1] or 48 in c[1]):
+                    sgr_zero = True
                 before = (r.pending, r.x, r.y, r.top, r.bot, r.cleared_by)
                 r.do(c)
                 t.addstr(enc_cmd(c))
@@ -784,6 +830,8 @@ class C15(core.Check):
                         ctx.append("pending wrap cleared by " + cleared)
                     if not top <= y <= bot:
                         ctx.append("cursor outside the scrolling region")
+                    if sgr_zero and "rendition" in d:
+                        ctx.append("after an SGR colour sequence whose last component is 0")
                     return f"vt100[{k}/{aspect}]: after command #{i} {c}" + (" (" + ", ".join(ctx) + ")" if ctx else "") + " " + d
         finally:
             urwid.set_encoding("utf-8")
@@ -973,9 +1021,18 @@ class C15(core.Check):
             elif k == 12:
                 c = ["stbm", rng.choice([-1, 0, 1, 2, h - 1, h]), rng.choice([-1, 0, 1, 2, h - 1, h, h + 1])]
             elif k == 13:
-                c = ["sgr", [rng.choice(self.REF_SGR) for _ in range(rng.randint(0, 3))]]
+                ps = []
+                for _ in range(rng.randint(0, 3)):
+                    r_ = rng.random()
+                    if r_ < 0.7:
+                        ps.append(rng.choice(self.REF_SGR))
+                    elif r_ < 0.85:
+                        ps += [rng.choice([38, 48]), 5, rng.choice([0, 1, 7, 8, 9, 15, 16, 100, 196, 231, 232, 255])]
+                    else:
+                        ps += [rng.choice([38, 48]), 2] + [rng.choice([0, 1, 2, 3, 128, 255]) for _ in range(3)]
+                c = ["sgr", ps]
             elif k == 14:
-                c = ["dsr", rng.choice([5, 6])]
+                c = rng.choice([["dsr", 5], ["dsr", 6], ["ht"], ["ht"]])
             else:
                 c = ["ch", rng.choice(b"abc")]
             if r.ambiguous(c):
